@@ -46,3 +46,6 @@ claim("C19", "Fault enumeration at the module boundary: every external-module ca
 claim("C11", "Per-block monitor of every stopped consumer: no updates computed or sent, retained state compared key by key until the removal time, removal exactly in the "
       "first block at/after stop+unbonding, complete deletion of the enumerated state categories, channel closed.",
       "online store-diff monitor with shadow of stop times (virtual-time deadlines)", "2/C11")
+claim("C17", "Directed hostile handshake matrix with real proofs (malicious consumer channel ends), honest handshakes, repetition, consumer-side refusals, launches on a "
+      "shared connection; standing bijection check of the consumer/client/channel maps after every provider block of every world; which provider set a live chain "
+      "adopts is judged per consumer id by the C01 monitor.", "directed hostile workload + standing invariant monitor over the raw store", "2/C17")
